@@ -75,7 +75,7 @@ Theorem C17_written_files_are_laid_out : forall ap h vl fmt recs evl f h',
   wf_header h' vl = true -> forallb (wf_vlr true) evl = true ->
   recs_ok (aint h' "point_size") recs = true -> 0 < aint h' "point_size" ->
   (evl = [] \/ aint h "version.minor" >= 4) -> len evl <= MAX_VLRS ->
-  is_point_format_compressed (aint h' "point_format_id") = false -> bytes_ok f = true ->
+  is_point_format_compressed (aint h' "point_format_id") = false ->
   exists rh, laid_out f rh /\ evlrs_adjacent rh.
 Proof. exact written_files_laid_out. Qed.
 Print Assumptions C17_written_files_are_laid_out.
